@@ -435,7 +435,7 @@ def glue_prop(case):
     for g in glue.GLUES:
         try:
             got = vloop.run_case(glue.feed, g, bodies, bool(case.get('noise', True)), len(items) + 2)
-        except glue.Endless:
+        except (glue.Endless, common.CaseTimeout):
             out.append(viol('decoder_does_not_terminate', 'C04:endless:glue:' + g, glue=g))
             continue
         except Exception as e:
@@ -471,7 +471,7 @@ def glue_prop(case):
             continue
         try:
             got = vloop.run_case(glue.feed_quic, chunks, len(items) + 2)
-        except glue.Endless:
+        except (glue.Endless, common.CaseTimeout):
             out.append(viol('decoder_does_not_terminate', 'C04:endless:glue:aioquic', glue='aioquic', partition=name))
             break
         except Exception as e:
